@@ -106,16 +106,26 @@ def run_case(case):
                 for kind, detail in structure.check_c14(y):
                     out["violations"].append({"kind": kind, "detail": f"{what} round trip via {B},{C}: {detail}"})
                 out["sigs"].append(f"trip:{x.engine}>{B}>{C}:{'same' if y is x else 'new'}:{tail}")
-            if isinstance(x, (R.LeafRelation, R.Materialization)) or (hasattr(x, "skip_to") and isinstance(getattr(x, "skip_to"), (R.LeafRelation, R.Materialization)) and x.target is x.skip_to):
+            core = x
+            from lsst.daf.relation import sql as _sql
+            while isinstance(core, _sql.Select) and core.target is core.skip_to:
+                core = core.target  # Select markers that apply no operation
+            if isinstance(core, (R.LeafRelation, R.Materialization)):
+                # materializing a leaf / an already materialized relation - once, twice, three times -
+                # must never add a Materialization node
                 before = lib_census(x).get("Materialization", 0)
-                try:
-                    mz = x.materialized(name="again")
+                cur = x
+                for rep in range(3):
+                    try:
+                        cur = cur.materialized(name=f"again{rep}")
+                    except Exception as exc:  # noqa: BLE001
+                        out["violations"].append({"kind": "materialized_raised", "detail": f"{what}: {exc_str(exc)}"})
+                        break
                     c["materialize_simplifications_checked"] = c.get("materialize_simplifications_checked", 0) + 1
-                    if lib_census(mz).get("Materialization", 0) > before:
-                        out["violations"].append({"kind": "materialization_of_locked_relation_added_node", "detail": f"{what}: {short(mz)}"})
-                    locked([x], mz, f"{what}.materialized()")
-                except Exception as exc:  # noqa: BLE001
-                    out["violations"].append({"kind": "materialized_raised", "detail": f"{what}: {exc_str(exc)}"})
+                    if lib_census(cur).get("Materialization", 0) > before:
+                        out["violations"].append({"kind": "materialization_of_locked_relation_added_node", "detail": f"{what}: materialized() call #{rep + 1} returned {short(cur)}"})
+                        break
+                    locked([x], cur, f"{what}.materialized() x{rep + 1}")
         # ---- content of root round trips
         m = model.Model(case["leaves"], sql_slices=True, key_dedup=True, strict_fragile=True, ordered_engines=("it", "it2"))
         try:
